@@ -157,9 +157,17 @@ def errJsons (e : Option Err) : List (String × Json) :=
   | none => [("err", Json.null), ("cause", Json.null)]
   | some e => [("err", Driver.errJson e.kind), ("cause", Driver.optErrJson e.cause)]
 
+/-- `SelfAlone` (Lemmas/Pipe.lean) as a Boolean -/
+def selfAloneB (op : Op) : Bool :=
+  match op.outKeys with
+  | k :: _ :: _ => !k.isSelf
+  | _ => true
+
 /-- `{"model":"pipe","specs":[..],"src":{..},"ignore":bool}` → the builder's verdict and, if it
 accepts, the implementation model's run; `ref_*`: the reference interpreter's run when no operator
-has batch sizes. -/
+has batch sizes; `refb_*`: the reference for chains with batched `apply` / `select` / `batch`
+operators (`Ref.chainEventsG`) and whether the decidable side conditions of
+`C08_refines_batched_partial` hold (`refb_ok`). -/
 def handle (j : Json) : Except String Json := do
   let specs ← (← Driver.getArr j "specs").toList.mapM parseSpec
   match Build.build {} specs with
@@ -189,7 +197,12 @@ def handle (j : Json) : Except String Json := do
          ("ref_logs", logsOf rr.logs),
          ("ref2_out", Json.arr (rr.out.map valJson).toArray),
          ("ref2_err", match rr.err with | none => Json.null | some e => Driver.errJson e.kind)]
-      else []
+      else
+        let (rout, rerr) := observe (Ref.chainEventsG ignore ops src)
+        [("refb_ok", toJson (Ref.runOKB ignore ops src && ops.all selfAloneB)),
+         ("refb_out", Json.arr (rout.map valJson).toArray),
+         ("refb_err", match rerr with | none => Json.null | some e => Driver.errJson e.kind),
+         ("refb_cause", match rerr with | none => Json.null | some e => Driver.optErrJson e.cause)]
     return Json.mkObj (base ++ refPart)
 
 end Driver.Pipe
